@@ -1104,14 +1104,21 @@ with map_loop (fuel : nat) (c : dcfg) (md : mmode) (m : ma) (x : src)
         match deser f c kemn kt (replay_new kevents) with
         | DFuel => DFuel
         | DErr e => DErr (key_err e kloc)
-        | DOk kv _ =>
-          value vt (fun v => (if overwrite then map_insert kv v pairs else pairs ++ [(kv, v)], fields_got))
+        | DOk kv xr =>
+          (* the key type must take the whole recorded node *)
+          match src_peek xr with
+          | NSome e _ => DErr (Err E_Unexpected (ev_loc e))
+          | _ => value vt (fun v => (if overwrite then map_insert kv v pairs else pairs ++ [(kv, v)], fields_got))
+          end
         end
       | MStruct fields deny =>
         match deser f c kemn TStr (replay_new kevents) with
         | DFuel => DFuel
         | DErr e => DErr (key_err e kloc)
-        | DOk (VStr name) _ =>
+        | DOk (VStr name) xr =>
+          match src_peek xr with
+          | NSome e _ => DErr (Err E_Unexpected (ev_loc e))
+          | _ =>
           match assoc_str name fields with
           | Some ft =>
             match assoc_str name fields_got with
@@ -1121,6 +1128,7 @@ with map_loop (fuel : nat) (c : dcfg) (md : mmode) (m : ma) (x : src)
           | None =>
             if deny then DErr (Err E_SerdeUnknownField loc_unknown)
             else value TIgnored (fun _ => (pairs, fields_got))
+          end
           end
         | DOk _ _ => DErr (Err E_Message loc_unknown)
         end
@@ -1313,6 +1321,13 @@ Definition synthesized_first (s : live) (items : list raw_item) : option loc :=
 
 Inductive outcome := OOk (v : val) | OErr (e : err) | OFuel.
 
+(* Error::is_syntax_error *)
+Definition is_syntax_err (e : err) : bool :=
+  match e with
+  | Err E_ExternalMessage _ | Err E_UnknownAnchor _ => true
+  | _ => false
+  end.
+
 Definition from_str_model (fuel : nat) (o : entry_opts) (t : ty) (items : list raw_item) : outcome :=
   let s0 := live_new (eo_budget o) false (eo_limits o) false in
   match deser fuel (eo_cfg o) false t (SLive s0 items 0) with
@@ -1334,7 +1349,8 @@ Definition from_str_model (fuel : nat) (o : entry_opts) (t : ty) (items : list r
         | (_, None) => OOk v
         end
       | Fail e s' _ =>
-        if lv_seen_doc_end s' then
+        (* only an error of the scanner itself is "trailing garbage" after a document end *)
+        if lv_seen_doc_end s' && is_syntax_err e then
           match live_finish s' with
           | (_, Some e') => OErr e'
           | (_, None) => OOk v
